@@ -634,7 +634,7 @@ def sanity():
 
 def bounded(tier, seed):
     from bounded import c01 as b
-    return [b.run(tier, seed), b.run(tier, seed, stop_first=False, with_inf=True), b.run_adaptive(tier, seed)]
+    return [b.run(tier, seed), b.run(tier, seed, stop_first=False, with_inf=True), b.run_adaptive(tier, seed), b.run_budget_grid(tier, seed)]
 
 
 _replay_cache = {}
